@@ -14,6 +14,17 @@ the inserted tags can be recognised unambiguously even when the query text itsel
     are replaced by sentinel words (no knowledge of the classes' __str__ is used),
   * the parsimonious and the exhaustive outputs give the same class to every character,
   * the input tree is not modified (snapshot before / after).
+
+Second oracle (the property as a CONSUMER of the output sees it; C17m.v): the REAL output — real element name,
+default parameters span / ok / ko, the custom triple em / hit / miss, and the others — is read back by an
+independent left-to-right markup scanner (`scan_markup`) that recognises exactly the three tags the marker can
+emit and knows nothing about the tree; then nesting, stripped text == query text and per-character classes are
+judged as above, in both modes.  HTMLMarker does not escape the query text, so this oracle fails when the text
+contains one of the marker's own tags: failures on which `text_has_marker_tag` (F23's predicate, a predicate on
+the INPUT: some tag of the marker is a substring of the tree's text) holds are classified F23; any other failure
+is a violation.  Texts with a harmless '<' / '>' (`a:<5`, `"<b>"`, `"</spam>"`, `x<y`) are judged and must pass.
+The same reading is computed by the Coq model (`Markup.read_markup`) and compared case by case, together with
+the guards `no_tag_in_text` / `params_simple` / `params_ok` and the conclusion of C17_markup_partial.
 """
 import copy
 import gc
@@ -48,6 +59,27 @@ QUERIES = [
     'a AND (b OR (c AND (d OR (e AND f))))',
     'é:"à b"~2 OR ü*',
 ]
+# texts with '<' / '>' : harmless ones, near-tags, and the marker's own tags (default and custom parameters)
+QUERIES_MARKUP = [
+    'a:<5 AND "x>y"',
+    '"<b>" OR c',
+    'a:<5 b:>=3 "</spam>"',
+    '"<span class=ok>" x',
+    'x<y AND z>t',
+    'a:>1 AND b:<2 AND "<" AND ">"',
+    '<b> OR "a > b"',
+    'f:"<span class=\\"ok\\">" AND g:<10',
+    'a AND "</span>"',
+    '"</span>" AND a',
+    '/<\\/span>/ OR b',
+    '<span class="ok">x</span>',
+    'a<span class="ok">b',
+    '"<span class="ko">" b',
+    'a AND</span>',
+    '"<em class="hit">" OR "</em>"',
+    '"</em>" AND (b OR c:<3)',
+]
+MARKUP_TRIPLES = [("ok", "ko", "span"), ("ok", "ko", "span"), ("hit", "miss", "em"), ("ok", "ko", "b")]
 CLASSES_OK = ["ok", "ok", "good", "x y", "", "é", "match"]
 CLASSES_KO = ["ko", "ko", "bad", "ok", "", "no match", "x y"]
 ELEMENTS = ["span", "span", "em", "b", "mark", "x-y"]
@@ -126,6 +158,92 @@ def judge(T, tree, ok, ko, okc, koc, elem, out):
     if not (set(ok) & set(ko)) and classes != exp:
         return "a character is not rendered with the class of the innermost marked node containing it", classes
     return None, classes
+
+
+# ---------------------------------------------------------------------------------------------------------
+# second oracle: the output read as markup with the marker's REAL tags
+
+def marker_tags(okc, koc, elem):
+    """the three strings HTMLMarker.mark_node can insert"""
+    return ['<%s class="%s">' % (elem, okc), '<%s class="%s">' % (elem, koc), '</%s>' % elem]
+
+
+def params_simple(okc, koc, elem):
+    """the three tags can be told apart (Markup.params_simple)"""
+    return "<" not in elem + okc + koc and '"' not in okc + koc and not elem.startswith("/")
+
+
+def text_has_marker_tag(text, okc, koc, elem):
+    """F23's predicate, on the input: a tag of the marker occurs in the text of the tree"""
+    return any(tag in text for tag in marker_tags(okc, koc, elem))
+
+
+def scan_markup(out, okc, koc, elem):
+    """read `out` as markup: (text without the marker's tags, properly nested?, class of every character of the
+    text).  Knows the three tags and nothing else."""
+    o_ok, o_ko, close = marker_tags(okc, koc, elem)
+    i, stack, text, classes, nested = 0, [], [], [], True
+    while i < len(out):
+        if out.startswith(o_ok, i):
+            stack.append(okc)
+            i += len(o_ok)
+        elif out.startswith(o_ko, i):
+            stack.append(koc)
+            i += len(o_ko)
+        elif out.startswith(close, i):
+            if stack:
+                stack.pop()
+            else:
+                nested = False
+            i += len(close)
+        else:
+            text.append(out[i])
+            classes.append(stack[-1] if stack else None)
+            i += 1
+    return "".join(text), nested and not stack, classes
+
+
+def markup_oracle(T, naming, tree, ok, ko, pars, okc, koc, elem, out):
+    """the clauses of the property on the real output read as markup.
+    returns (reason or None, reading) with reading = None (mis-nested) or (text, classes)"""
+    s0 = tree.__str__(head_tail=True)
+    text, nested, classes = scan_markup(out, okc, koc, elem)
+    reading = (text, classes) if nested else None
+    if not nested:
+        return "read as markup, the elements are not properly nested (stripped text %r)" % text, reading
+    if text != s0:
+        return "read as markup, removing the marker's elements does not give back the query text: %r" % text, reading
+    if not (set(ok) & set(ko)):
+        exp = expected_classes(T, tree, (), None, ok, ko, okc, koc)
+        if classes != exp:
+            return ("read as markup, a character is not rendered with the class of the innermost marked node "
+                    "containing it"), reading
+    other = naming.HTMLMarker(okc, koc, elem)(tree, ok, ko, not pars)
+    text2, nested2, classes2 = scan_markup(other, okc, koc, elem)
+    if not nested2 or text2 != text or classes2 != classes:
+        return "read as markup, the parsimonious and the exhaustive outputs differ in text or classes", reading
+    return None, reading
+
+
+def inject_markup(r, T, tree, okc, koc, elem):
+    """put '<' / '>' / near-tags / the marker's own tags into values, heads and tails of a programmatic tree"""
+    o_ok, o_ko, close = marker_tags(okc, koc, elem)
+    harmless = ["<", ">", "a<b", "<b>", "</spam>", "<%s>" % elem, "<%s class=%s>" % (elem, okc), "</", "< /%s>" % elem,
+                close[:-1], o_ok[:-1], "<%s class='%s'>" % (elem, okc), close.upper() if close.upper() != close else "<"]
+    tags = [o_ok, o_ko, close]
+    nodes = [n for _, n in gentree.all_nodes(tree)]
+    hot = r.random() < 0.4
+    for _ in range(r.randrange(1, 4)):
+        n = r.choice(nodes)
+        snip = r.choice(tags) if hot and r.random() < 0.6 else r.choice(harmless)
+        x = r.random()
+        if isinstance(n, T.Term) and x < 0.5:
+            n.value = snip if isinstance(n, T.Word) else n.value[:1] + snip + n.value[-1:]
+        elif x < 0.75:
+            n.head = n.head + snip
+        else:
+            n.tail = snip + n.tail
+    return tree
 
 
 def oracle(T, naming, tree, ok, ko, pars, okc, koc, elem, out):
@@ -343,6 +461,34 @@ def correspond(model_ok, res):
     fixed = []
     for tree, ok, ko, pars in corpus:
         fixed.append((tree, ok, ko, pars, "ok", "ko", "span", "corpus"))
+    # texts with '<': F23's witness, the harmless a:<5 AND "x>y" marked on both operands, a tag formed across
+    # two adjacent words (nothing marked: mis-read; first word marked: the element cuts the tag, reads right)
+    for q, ok, ko, pars, triple in [
+            ('a AND "</span>"', [(0,)], [(1,)], True, ("ok", "ko", "span")),
+            ('a AND "</span>"', [(0,)], [(1,)], False, ("ok", "ko", "span")),
+            ('a AND "</span>"', [(0,)], [(1,)], True, ("hit", "miss", "em")),
+            ('a AND "</em>"', [(0,)], [(1,)], True, ("hit", "miss", "em")),
+            ('a:<5 AND "x>y"', [(0,)], [(1,)], True, ("ok", "ko", "span")),
+            ('a:<5 AND "x>y"', [(0,)], [(1,)], False, ("ok", "ko", "span")),
+            ('a:<5 AND "x>y"', [(0,), (0, 0)], [(1,), ()], False, ("hit", "miss", "em"))]:
+        fixed.append((parser.parse(q), ok, ko, pars) + triple + ("markup-corpus",))
+    for ok, ko in [([], []), ([(0,)], []), ([()], [(1,)])]:
+        fixed.append((T.UnknownOperation(T.Word("</sp"), T.Word("an>")), ok, ko, True, "ok", "ko", "span",
+                      "markup-corpus"))
+        fixed.append((T.AndOperation(T.Word("a", tail=" <span class="), T.Word("b", head='"ok"> ')), ok, ko, False,
+                      "ok", "ko", "span", "markup-corpus"))
+    for q in QUERIES_MARKUP:
+        tree = parser.parse(q)
+        for _ in range(per_query):
+            ok, ko = random_paths(r, tree)
+            okc, koc, elem = r.choice(MARKUP_TRIPLES)
+            fixed.append((copy.deepcopy(tree), ok, ko, r.random() < 0.5, okc, koc, elem, "parsed-markup"))
+    for _ in range(n_random // 3):
+        okc, koc, elem = r.choice(MARKUP_TRIPLES) if r.random() < 0.7 else (
+            r.choice(CLASSES_OK), r.choice(CLASSES_KO), r.choice(ELEMENTS))
+        tree = inject_markup(r, T, g.tree(r.randrange(0, 4)), okc, koc, elem)
+        ok, ko = random_paths(r, tree)
+        fixed.append((tree, ok, ko, r.random() < 0.5, okc, koc, elem, "random-markup"))
     for q in QUERIES:
         tree = parser.parse(q)
         for _ in range(per_query):
@@ -359,7 +505,12 @@ def correspond(model_ok, res):
     seen = set()
     dist = {"origin": {}, "parcimonious": {}, "marked_nodes_in_tree": {}, "paths_not_in_tree": 0,
             "ok_ko_overlap": 0, "same_class_for_ok_and_ko": 0, "marked_NoneItem": 0,
-            "text_contains_lt": 0, "paths_as_set": 0}
+            "text_contains_lt": 0, "paths_as_set": 0,
+            "markup_oracle": {"judged": 0, "passed": 0, "F23": 0, "other_failures": 0,
+                              "text_with_lt_or_gt_judged_and_passed": 0, "text_with_a_marker_tag": 0,
+                              "text_with_a_marker_tag_yet_read_right": 0, "default_span_ok_ko": 0,
+                              "custom_em_hit_miss": 0, "skipped_parameters_not_simple": 0}}
+    mo = dist["markup_oracle"]
     for tree, ok, ko, pars, okc, koc, elem, origin in fixed:
         try:
             before = lib.g_item(tree)
@@ -383,10 +534,35 @@ def correspond(model_ok, res):
             why = "the input tree was modified"
         if why:
             res.failures.append((dict(payload, why=why, output=out[:1000]), None))
-        cases.append("(%s, %s, %s, %s, %s, %s, %s, %s, %s)" % (
+        # second oracle: the real output read as markup
+        s0 = tree.__str__(head_tail=True)
+        has_tag = text_has_marker_tag(s0, okc, koc, elem)
+        simple = params_simple(okc, koc, elem)
+        why2, reading = markup_oracle(T, naming, tree, a_ok, a_ko, pars, okc, koc, elem, out)
+        if not simple:
+            mo["skipped_parameters_not_simple"] += 1
+        else:
+            mo["judged"] += 1
+            mo["default_span_ok_ko"] += (okc, koc, elem) == ("ok", "ko", "span")
+            mo["custom_em_hit_miss"] += (okc, koc, elem) == ("hit", "miss", "em")
+            mo["text_with_a_marker_tag"] += has_tag
+            if why2 is None:
+                mo["passed"] += 1
+                mo["text_with_lt_or_gt_judged_and_passed"] += "<" in s0 or ">" in s0
+                mo["text_with_a_marker_tag_yet_read_right"] += has_tag
+            else:
+                # F23 is recognised by a predicate on the INPUT; any other failure is a violation
+                fid = "F23" if has_tag else None
+                mo["F23" if fid else "other_failures"] += 1
+                if fid is None or mo["F23"] <= 5:
+                    res.failures.append((dict(payload, why=why2, output=out[:1000], oracle="output read as markup",
+                                              marker_tags=marker_tags(okc, koc, elem)), fid))
+        cases.append("(%s, %s, %s, %s, %s, %s, %s, %s, %s, %s, %s, %s)" % (
             before, lib.g_list([lib.g_path(p) for p in ok]), lib.g_list([lib.g_path(p) for p in ko]),
             lib.g_bool(pars), lib.g_str(okc), lib.g_str(koc), lib.g_str(elem), lib.g_str(out),
-            "None" if classes is None else "(Some %s)" % g_oclasses(classes)))
+            "None" if classes is None else "(Some %s)" % g_oclasses(classes),
+            "None" if reading is None else "(Some (%s, %s))" % (lib.g_str(reading[0]), g_oclasses(reading[1])),
+            lib.g_bool(not has_tag), lib.g_bool(simple)))
         payloads.append(payload)
         marked = [p for p in set(ok) | set(ko) if p in in_tree]
         dist["origin"][origin] = dist["origin"].get(origin, 0) + 1
@@ -408,29 +584,50 @@ def correspond(model_ok, res):
     res.rule = ("parsed queries (incl. phrases containing <span class=\"ok\"> / </span>) and random programmatic "
                 "trees of every item class (odd shapes, NoneItem, random head/tail) x random ok/ko path "
                 "collections (subsets of the tree's paths, paths not in the tree, disjoint or overlapping) x both "
-                "modes x several ok_class/ko_class/element; non-trivial = distinct (tree, ok, ko, mode, classes) "
+                "modes x several ok_class/ko_class/element; plus queries and trees whose text contains '<' / '>' / "
+                "near-tags / the marker's own tags (default span-ok-ko, em-hit-miss, ...), each output also read "
+                "back as markup with the real tags; non-trivial = distinct (tree, ok, ko, mode, classes) "
                 "with more than one node and at least one marked path inside the tree")
     res.samples = payloads[11:17]
     res.distribution = dist
     if model_ok:
         defs = (
             "Definition case := (item * list path * list path * bool * str * str * str * str * "
-            "option (list (option str)))%type.\n"
+            "option (list (option str)) * option (str * list (option str)) * bool * bool)%type.\n"
+            "Definition beq (a b : bool) : bool := if a then b else negb b.\n"
+            "Definition seg_eqb (a b : seg) : bool :=\n"
+            "  match a, b with Text x, Text y => str_eqb x y | Open x, Open y => str_eqb x y\n"
+            "  | Close, Close => true | _, _ => false end.\n"
+            "Definition rd_eqb (a b : option (str * list (option str))) : bool :=\n"
+            "  match a, b with\n"
+            "  | Some (x, l), Some (y, m) => str_eqb x y && list_eqb ostr_eqb l m\n"
+            "  | None, None => true | _, _ => false end.\n"
             "Definition chk (c : case) : bool :=\n"
-            "  let '(t, ok, ko, pars, okc, koc, elem, out, cls) := c in\n"
+            "  let '(t, ok, ko, pars, okc, koc, elem, out, cls, rd, tagfree, simple) := c in\n"
             "  match html okc koc elem pars t ok ko, mark_segs okc koc pars t ok ko with\n"
             "  | Some h, Some sg =>\n"
             "      str_eqb h out && force_stable t &&\n"
-            "      match cls with Some l => list_eqb ostr_eqb (classes_per_char sg) l | None => true end\n"
+            "      match cls with Some l => list_eqb ostr_eqb (classes_per_char sg) l | None => true end &&\n"
+            "      (* the output read as markup: the model's reader against the harness' scanner, the guards, and\n"
+            "         the conclusion of C17_markup_partial / C17_markup_exact_partial / _exact_tokens *)\n"
+            "      rd_eqb (read_markup elem okc koc out) rd &&\n"
+            "      beq (no_tag_in_text elem okc koc t) tagfree && beq (params_simple elem okc koc) simple &&\n"
+            "      (negb simple || params_ok elem okc koc) &&\n"
+            "      (negb (params_ok elem okc koc && clean_output elem okc koc pars t ok ko) ||\n"
+            "       rd_eqb rd (Some (print true t, owner_class okc koc ok ko t))) &&\n"
+            "      (negb (params_ok elem okc koc && tagfree) || clean_output elem okc koc pars t ok ko) &&\n"
+            "      (negb (params_ok elem okc koc) ||\n"
+            "       beq (list_eqb seg_eqb (scan_markup elem okc koc out) (explode sg))\n"
+            "           (clean_output elem okc koc pars t ok ko))\n"
             "  | _, _ => false end.")
         # canary: a corrupted expected output must be reported
         tree, ok, ko, pars = corpus[4]
-        canary = "(%s, %s, %s, %s, %s, %s, %s, %s, None)" % (
+        canary = "(%s, %s, %s, %s, %s, %s, %s, %s, None, None, true, true)" % (
             lib.g_item(tree), lib.g_list([lib.g_path(p) for p in ok]), lib.g_list([lib.g_path(p) for p in ko]),
             lib.g_bool(pars), lib.g_str("ok"), lib.g_str("ko"), lib.g_str("span"),
             lib.g_str(naming.HTMLMarker()(tree, ok, ko, pars) + "x"))
         try:
-            bad = lib.eval_cases("C17", "Base Decimal Tree TreeEq Marker", defs, cases + [canary], "chk", shard=40)
+            bad = lib.eval_cases("C17", "Base Decimal Tree TreeEq Print Marker Markup", defs, cases + [canary], "chk", shard=40)
         except Exception as e:
             res.model_error = str(e)
             bad = []
@@ -448,19 +645,49 @@ def correspond(model_ok, res):
 SPEC = {
     "id": "C17",
     "targets": ["props/C17.vo"],
-    "model_targets": ["model/Marker.vo", "model/TreeEq.vo"],
+    "model_targets": ["model/Marker.vo", "model/Markup.vo", "model/TreeEq.vo"],
     "module": "C17",
     "theorems": ["C17_total", "C17_segments_are_output", "C17_strip_gives_copy",
                  "C17_strip_gives_text_partial", "C17_strip_gives_text_refuted", "C17_nested",
                  "C17_classes_of_copy", "C17_classes_partial", "C17_classes_refuted",
                  "C17_owner_class_is_innermost_marked", "C17_parsimony"],
+    # the property on the OUTPUT STRING read as markup (independent tokenizer model/Markup.v)
+    "more": [{"module": "C17m", "target": "props/C17m.vo",
+              "theorems": ["C17_markup_partial", "C17_markup_exact_partial", "C17_markup_exact_tokens",
+                           "C17_guard_implies_clean", "C17_markup_text_partial", "C17_markup_parsimony",
+                           "C17_parsed", "C17_markup_parsed", "C17_markup_parsed_respelled", "C17_params_simple",
+                           "C17_markup_refuted", "C17_markup_params_needed", "C17_F1_consequence"]}],
     "correspond": correspond,
-    "statement": "for every tree, every ok/ko path collections (disjoint or not: ok wins) and both modes: the "
-                 "HTML string is the flattening of a segment list (Text/Open cls/Close) whose texts are the text "
-                 "of the default copy of the tree (= the text of the tree when every explicit Boost force prints "
-                 "like its normalisation, which holds for parsed and constructed trees), whose Open/Close are "
-                 "properly nested, and where every character has the class of the innermost marked node whose "
-                 "widened text contains it; the parsimonious mode gives the same class to every character",
+    "statement": "for every parsed query, every ok/ko path collections (disjoint or not: ok wins) and both modes, the "
+                 "OUTPUT STRING read as markup (a tokenizer that knows the three tags <elem class=\"ok\">, "
+                 "<elem class=\"ko\">, </elem> and nothing about the tree) is properly nested, strips to the query "
+                 "text, and gives every character the class of the innermost marked node whose widened text contains "
+                 "it; the parsimonious mode reads the same: REFUTED (F23) by 'a AND \"</span>\"' marked {(0,)} / "
+                 "{(1,)} — HTMLMarker does not escape the query text, the phrase's </span> is taken for a closing tag. "
+                 "PROVED (C17m.v) for every tree, both modes, all path collections, under two executable guards: "
+                 "no_tag_in_text (none of the marker's three tags is a substring of the tree's text; a '<' that "
+                 "starts no complete tag is fine: a:<5, \"<b>\") and params_ok (element / classes contain no '<' and "
+                 "no tag is a proper prefix of another; implied by: no '<', no double quote in the classes, element "
+                 "not starting with '/'; needed: C17_markup_params_needed). The path-dependent guard clean_output "
+                 "(no tag starts at a text character of this output) is exact: it holds iff the tokenizer recovers "
+                 "the marker's own segments (C17_markup_exact_tokens), follows from no_tag_in_text, and suffices "
+                 "(C17_markup_exact_partial). For a parsed query the Boost-force guard of C17.v needs no hypothesis "
+                 "(C17_parsed, from C11_parsed_wellformed) and the stripped text is the query itself when the parse "
+                 "has no ghost event, the query up to re-spelled numerals when no text was dropped (C01 / C01r); "
+                 "outside that it is F1's consequence (C17_F1_consequence: 'f :a AND b' strips to 'f:a AND b'). "
+                 "C17.v: the same clauses on the marker's own segment list, for every tree, without any guard on "
+                 "the text",
+    "level_text": "Coq proof (PARTIAL: F23). C17m.v — the property on the output string read back by an independent "
+                  "tokenizer: refuted without a guard on the text (C17_markup_refuted, witness replayed on the real "
+                  "code), proved for every tree / path collections / mode / parameters under no_tag_in_text and "
+                  "params_ok (C17_markup_partial, _text_partial, _parsimony), exact path-dependent criterion "
+                  "(C17_markup_exact_tokens, _exact_partial, C17_guard_implies_clean), the property's own quantifier "
+                  "'parsed queries' end to end from the query string (C17_parsed, C17_markup_parsed, "
+                  "_parsed_respelled), F1's consequence stated (C17_F1_consequence). C17.v — full proofs on the "
+                  "marker's segment list (no guard on the text). Correspondence on every run: model output == "
+                  "implementation output, model reader == the harness' Python scanner, guards == their Python "
+                  "counterparts; oracles: sentinel-element oracle (all clauses, any text) and real-tag markup oracle "
+                  "(failures classified F23 by a predicate on the input, anything else is a violation)",
     "trusted_base": [
         "Coq 8.16.1 kernel (vm_compute used for table facts, witnesses and correspondence; no native_compute)",
         "no axioms (Print Assumptions: closed under the global context)",
@@ -471,10 +698,25 @@ SPEC = {
         "differential correspondence (harness/c17.py, harness/c09.py) on every run",
         "segment semantics (mark_segs / flatten) is proved equal to the modelled output string, and its "
         "classes_per_char is also compared with the classes read off the implementation's output",
+        "coq/model/Markup.v: the reader of the output string (scan_markup / read_markup) IS the meaning given to "
+        "'the output parsed as markup': left to right, the marker's three tags recognised wherever they start, "
+        "tried in the order ok / ko / closing; compared on every case with the harness' Python scanner",
+        "C17_parsed / C17_markup_parsed rest on the parser model (Lexer.v, LR.v, Actions.v, Parser.v, generated "
+        "tables) tied by C01 / C11's correspondence",
         "value-based tree model: a Python object shared between two positions is not modelled",
     ],
     "assumptions": ["trees contain only luqum.tree classes; ok_class / ko_class / element are str",
-                    "'original query text' is tree.__str__(head_tail=True); that it is the parsed string is C01",
+                    "'original query text' is tree.__str__(head_tail=True); for a parsed query it is the parsed string "
+                    "when the parse has no ghost event, and the string up to re-spelled numerals (a^1.0 -> a^1) when "
+                    "no text was dropped (C17_parsed, from C01 / C01r); a query with a blank before a field's colon "
+                    "(F1) strips to the text without that blank (C17_F1_consequence)",
+                    "KNOWN FINDING F23: the query text is not escaped; the markup theorems are guarded by "
+                    "no_tag_in_text (no tag of the marker is a substring of the tree's text) — the narrower exact "
+                    "guard is clean_output (path dependent); without a guard the statement is refuted",
+                    "the marker's parameters give distinguishable tags (params_ok; true when element and classes "
+                    "contain no '<', the classes no double quote and the element does not start with '/'); "
+                    "ko_class = 'x\">y' with ok_class = 'x' is mis-read even on tag-free text "
+                    "(C17_markup_params_needed)",
                     "the Coq model is a function of the VALUES (tree, paths, mode, classes, element): state kept on "
                     "the marker instance and object identity (id(tree), address reuse after garbage collection, "
                     "in-place edits between calls) are outside it; they are covered by harness histories only — one "
@@ -482,5 +724,6 @@ SPEC = {
                     "repeating path sets and modes, and mark / edit in place / mark again sequences, every output "
                     "judged on the current tree and compared with a fresh marker",
                     "text identity with the input tree needs every explicit Boost force to print like its "
-                    "normalisation (true of parsed / constructed trees; false only after overwriting .force)"],
+                    "normalisation (true of parsed trees: C17_parsed, and of constructed trees; false only after "
+                    "overwriting .force)"],
 }
